@@ -150,7 +150,8 @@ class Toolbox:
         self.scratch = scratch
         self.as_ = shutil.which("as")
         self.gcc = shutil.which("gcc") or shutil.which("cc")
-        if not self.gcc and not (self.as_ and shutil.which("ld")):
+        self.ld = shutil.which("ld")
+        if not self.gcc and not (self.as_ and self.ld):
             raise ToolError("no gcc / as+ld on this host")
         self.n = 0
         self.tramp_o = os.path.join(scratch, "vt_tramp.o")
@@ -166,10 +167,10 @@ class Toolbox:
         return _run([self.gcc, "-c", "-x", "assembler", "-o", obj, src], self.scratch)
 
     def _link(self, objs, so):
-        if self.gcc:
-            cmd = [self.gcc, "-shared", "-nostdlib", "-Wl,-z,noexecstack", "-o", so] + objs
+        if self.ld:
+            cmd = [self.ld, "-shared", "-z", "noexecstack", "-o", so] + objs
         else:
-            cmd = ["ld", "-shared", "-z", "noexecstack", "-o", so] + objs
+            cmd = [self.gcc, "-shared", "-nostdlib", "-Wl,-z,noexecstack", "-o", so] + objs
         return _run(cmd, self.scratch)
 
     def assemble(self, texts):
